@@ -210,11 +210,13 @@ func (ip *Inode) Resize(atxn *alloctxn.AllocTxn, sz uint64) bool {
 // been allocated.
 func (ip *Inode) indbmap(atxn *alloctxn.AllocTxn, root_ common.Bnum, level uint64, off uint64) (common.Bnum, common.Bnum) {
 	var root = root_
+	var fresh = false
 	if root == common.NULLBNUM { // no root?
 		root = atxn.AllocBlock()
 		if root == common.NULLBNUM {
 			return root, root
 		}
+		fresh = true
 	}
 	if level == 0 { // leaf?
 		return root, root
@@ -231,6 +233,12 @@ func (ip *Inode) indbmap(atxn *alloctxn.AllocTxn, root_ common.Bnum, level uint6
 	blkno, newnextroot := ip.indbmap(atxn, nxtroot, level-1, ind)
 	atxn.AssertValidBlock(newnextroot)
 	atxn.AssertValidBlock(blkno)
+	if blkno == common.NULLBNUM && fresh {
+		// nothing could be allocated below this new index block: give it
+		// back, an index block without a block under it is never freed
+		atxn.FreeBlock(root)
+		return common.NULLBNUM, root_
+	}
 	if newnextroot != nxtroot {
 		buf.BnumPut(bo, newnextroot)
 	}
